@@ -11,6 +11,7 @@ Import ListNotations.
 From GV Require Import Common.Wire.
 From GV Require gen.Gen_datamut.
 From GV Require C14.ParseModel.
+From GV Require gen.Gen_linkcompute.
 Open Scope Z_scope.
 
 Definition cid := Z.
@@ -252,6 +253,46 @@ Definition compute_func (ravel : bool) (e : dexpr) (leaf : cid -> value) : value
       end
     | _ => VErr IndexError      (* no inputs, or an input that is a bare scalar: outside the domain *)
     end
+  end.
+
+
+(* ---------- ComponentLink.compute as REGENERATED from glue/core/component_link.py (coq/gen/Gen_linkcompute.v), instantiated with the
+   model's arrays: the link function evaluates e point-wise on its (already broadcast) arguments and returns an array of their
+   shape; ravel / reshape / `result.shape = s` do not occur in the unchanged function (ravel and reshape are the identity here,
+   an assignment to .shape is an error: the lemma gen_compute_is_model shows it is never reached) ---------- *)
+Definition env_link (e : dexpr) (ids : list cid) (leaf : cid -> value) : Gen_linkcompute.lc_env cid arr cerr := {|
+  Gen_linkcompute.lc_fetch := fun c => match leaf c with
+                                       | VArr a => Gen_linkcompute.LcOk a
+                                       | VErr er => Gen_linkcompute.LcErr er
+                                       | VScalar _ => Gen_linkcompute.LcErr IndexError
+                                       end;
+  Gen_linkcompute.lc_first := fun l => match l with a :: _ => Gen_linkcompute.LcOk a | [] => Gen_linkcompute.LcErr IndexError end;
+  Gen_linkcompute.lc_shape := ashape;
+  Gen_linkcompute.lc_unbroadcast := unbroadcast;
+  Gen_linkcompute.lc_broadcast_arrays := fun us =>
+    match common_all (map ashape us) with
+    | None => Gen_linkcompute.LcErr BroadcastError
+    | Some cs => match all_some (map (fun u => broadcast_to u cs) us) with
+                 | None => Gen_linkcompute.LcErr BroadcastError
+                 | Some bs => Gen_linkcompute.LcOk bs
+                 end
+    end;
+  Gen_linkcompute.lc_using := fun bs =>
+    Gen_linkcompute.LcOk (mkarr (fresh_axes (match bs with b :: _ => ashape b | [] => [] end))
+                                (fun idx => eval_expr e (assoc_env ids (map (fun b => aget b idx) bs))));
+  Gen_linkcompute.lc_asarray := fun a => a;
+  Gen_linkcompute.lc_set_shape := fun _ _ => Gen_linkcompute.LcErr ShapeError;
+  Gen_linkcompute.lc_broadcast_to := fun a sh => match broadcast_to a sh with
+                                                 | Some x => Gen_linkcompute.LcOk x
+                                                 | None => Gen_linkcompute.LcErr BroadcastError
+                                                 end;
+  Gen_linkcompute.lc_ravel := fun _ a => a;
+  Gen_linkcompute.lc_reshape := fun a _ => Gen_linkcompute.LcOk a
+|}.
+Definition g_compute_func (e : dexpr) (leaf : cid -> value) : value :=
+  match Gen_linkcompute.compute (env_link e (dedup (leaves e)) leaf) (dedup (leaves e)) with
+  | Gen_linkcompute.LcOk a => VArr a
+  | Gen_linkcompute.LcErr er => VErr er
   end.
 
 (* ---------- the dataset ---------- *)
